@@ -10,6 +10,7 @@ import (
 	"strings"
 
 	"github.com/osteele/liquid"
+	"github.com/osteele/liquid/expressions"
 	"github.com/osteele/liquid/render"
 )
 
@@ -63,6 +64,21 @@ func registerExt(eng *liquid.Engine) {
 			return "", err
 		}
 		return "(" + s + "|" + t + ")", nil
+	})
+	// a filter whose last parameter is a Closure: the argument is the source of an expression, evaluated per element
+	// with the element bound to the given name (gojekyll's where_exp)
+	eng.RegisterFilter("lqx_where", func(a []any, name string, cond expressions.Closure) ([]any, error) {
+		out := []any{}
+		for _, e := range a {
+			v, err := cond.Bind(name, e).Evaluate()
+			if err != nil {
+				return nil, err
+			}
+			if v != nil && v != false {
+				out = append(out, e)
+			}
+		}
+		return out, nil
 	})
 	eng.RegisterFilter("lqx_rep", func(s string, n int) string {
 		if n < 0 || n > 1000 {
